@@ -154,3 +154,12 @@ func (r *Router) VerifQueueLen() int {
 
 	return len(r.queue.chunks)
 }
+
+// VerifDrainDelayNotify takes one pending arrival notification of a delay
+// filter, if a sender is parked on it (harness cleanup after a dead loop).
+func VerifDrainDelayNotify(f *DelayFilter) {
+	select {
+	case <-f.push:
+	default:
+	}
+}
